@@ -29,6 +29,7 @@ func (l *MemoryLock) Lock(key string) error {
 	}
 	lock.locked++
 	l.mu.Unlock()
+	verifYield('a', key)
 
 	lock.mu.Lock()
 
@@ -44,8 +45,10 @@ func (l *MemoryLock) Unlock(key string) error {
 		return nil
 	}
 	l.mu.Unlock()
+	verifYield('u', key)
 
 	lock.mu.Unlock()
+	verifYield('d', key)
 
 	l.mu.Lock()
 	lock.locked--
